@@ -14,7 +14,7 @@ _typer_cache = {}
 def typer_for(ctx, assume=None):
     key = (id(ctx.p), tuple(sorted((assume or {}).items())))
     if key not in _typer_cache:
-        _typer_cache[key] = Typer(ctx.p, assume=assume).run()
+        _typer_cache[key] = Typer(ctx.p, assume=assume).run_interprocedural()
     return _typer_cache[key]
 
 
